@@ -127,6 +127,7 @@ type Machine struct {
 	PreGrow  *ast.CallExpr // destination pre-growth call in the prologue, if any
 	Returns  string        // shape of the final return
 	Marks    map[string]types.Object
+	ValVar   string // variable assigned by SETVAL actions
 	w        *core.World
 	x        *extractor
 }
